@@ -463,7 +463,9 @@ protected:
 			// Persister::put is always keyed by _next_send_seq: the keys used during this operation lie between
 			// the values next_send had before and after it (it moves by increments, or by one jump when numbers
 			// are recovered / re-based).  Persister offers no key enumeration and get_last_seqnum can be 2^31,
-			// so only these candidates (and all earlier ones) are read back.
+			// so only these candidates, a margin around them, the 1024 numbers below the highest stored one
+			// (and all earlier candidates) are read back.  A key outside would show up as a model/harness
+			// disagreement (the model prints every delta), never silently.
 			std::map<unsigned, std::string> now;
 			unsigned last(0);
 			per->get_last_seqnum(last);
@@ -475,8 +477,10 @@ protected:
 				for (unsigned k(lo); k <= lo + 64; ++k) _cand.insert(k);
 				lo = hi - 64;
 			}
-			for (unsigned k(lo); k <= hi; ++k) _cand.insert(k);
-			if (last) _cand.insert(last);
+			for (unsigned k(lo > 64 ? lo - 64 : 1); k <= hi + 64; ++k) _cand.insert(k);
+			// next_send may also have gone up and come back within one operation (always_seqnum_assign resend):
+			// everything just below the highest stored number is a candidate too
+			for (unsigned k(last > 1024 ? last - 1024 : 1); k <= last; ++k) _cand.insert(k);
 			for (const unsigned s : _cand)
 			{
 				f8String v;
